@@ -6,9 +6,10 @@ from mc.meshcheck import check_gmsh, check_tiling, trans_leafset
 from mc.meshmc import CFGS, Horizon, build, build_ref, find_leaf, horizon, leaf6, leafset
 from mc.refmesh import halves, quarters, ref_from_leaves
 
-QUICK = {'open1x1': 4, 'glued1x1': 4, 'glued2x1': 4, 'glued3x1': 3, 'open2x2': 3, 'glued2x2': 3,
-         'open_irreg3x3': 2, 'glued_irreg3x3': 2, 'UnitInterval': 4, 'Circle': 3, 'UnitSquare': 3,
-         'PiSquare': 2, 'LShape': 2, 'Circle2': 2, 'UnitSquare2': 2, 'LShape2': 2}
+QUICK = {'open1x1': 5, 'glued1x1': 5, 'glued2x1': 4, 'glued3x1': 4, 'open2x2': 3, 'glued2x2': 4,
+         'open_irreg3x3': 3, 'glued_irreg3x3': 3, 'UnitInterval': 5, 'Circle': 3, 'UnitSquare': 4,
+         'PiSquare': 3, 'LShape': 3, 'LShapeDriver': 2, 'Circle2': 2, 'UnitSquare2': 2, 'LShape2': 2}
+DEEP = ('glued2x2', 'Circle', 'UnitSquare', 'LShapeDriver', 'open_irreg3x3', 'glued1x1')
 THOROUGH = {'open1x1': 6, 'glued1x1': 6, 'glued2x1': 5, 'glued3x1': 5, 'open2x2': 4, 'glued2x2': 4,
             'open_irreg3x3': 3, 'glued_irreg3x3': 3, 'UnitInterval': 6, 'Circle': 4, 'UnitSquare': 4,
             'PiSquare': 4, 'LShape': 4, 'LShapeDriver': 3, 'Circle2': 3, 'UnitSquare2': 3, 'LShape2': 3}
@@ -108,6 +109,12 @@ def run(ctx):
     for cfgname, d in depths.items():
         meshmc.explore(ctx, cfgname, d, state_fn, trans_leafset, onv, stats=st)
         ctx.note('{}: {}'.format(cfgname, st.per_cfg[cfgname]))
+    # non-initial roots: directed deep histories (towards t=0, a corner, the seam from either side), each the root
+    # of a shallow exhaustive search
+    for cfgname in DEEP:
+        for name, root in meshmc.deep_histories(cfgname, 3 if ctx.tier == 'quick' else 5).items():
+            meshmc.explore(ctx, cfgname, 1 if ctx.tier == 'quick' else 2, state_fn, trans_leafset, onv, stats=st, root=root,
+                           label='{}+deep:{}'.format(cfgname, name))
     nrw = random_walks(ctx, st, 6 if ctx.tier == 'quick' else 40, 60 if ctx.tier == 'quick' else 200)
     cov = {
         'states': st.states, 'transitions': st.transitions + int(st.extra.get('derived_transitions', 0)),
